@@ -49,6 +49,13 @@ CLAIMED = {
                      "authenticateTransport's err==nil branch is the only way to the manifest transfer, to the extra-connection set-up and to keeping an extra connection (facts regenerated from the CFG, failure branches ending in os.Exit recognised). "
                      "Tie: constants regenerated; the real authenticateTransport runs against a scripted attacker (material made by the model with its own SHA-256/HMAC) and every byte read/written by the honest ends is re-judged by the model.",
                 note=BASE_TB + "Assumed, not proved: HMAC-SHA256 unforgeability/collision-freeness; TLS exporter uniqueness per session (measured on loopback QUIC each run). Not modelled: crypto/rand, context timeouts (attacker closes its stream instead of stalling)."),
+    "C16": dict(category="proof", design="DESIGN.md §4 C16",
+                technique="Lean 4 round-trip theorems over a byte-level model of the net/url subset used (escape/unescape in both modes, query assembly vs ParseQuery/Get, TURN URL minting vs parsing, /session response); model vs net/url, buildWebSocketURL, injectTurnCredentials (inside the real thruserv binary) and parseTurnServer on generated strings; real thruserv on a flag grid with the real client functions",
+                text="For ALL byte strings: unescape(escape s)=s; the server's Query().Get on the query built by buildWebSocketURL returns exactly the join code, peer id and role; the client's parse of the TURN URL minted by the server "
+                     "returns the same scheme, user, secret, host:port and options (any user/secret, turn/turns). Tie: every model function is run against its real counterpart on generated strings (URL-significant characters, unicode, invalid UTF-8, "
+                     "malformed escapes, nine TURN spellings); the real thruserv binary is started on a grid of flag values (each flag small / 0, all 0, combinations, TURN on/off) and the real CreateSession, buildWebSocketURL+wsclient and parseTurnServer run against it, "
+                     "TURN secrets checked against an independent HMAC-SHA1 oracle.",
+                note=BASE_TB + "Modelled not verified: url.Parse only for URLs of the minted shape; encoding/json, time RFC3339, gorilla/websocket, net/http exercised only. Rate-limit pacing between the two connects is applied when the configured connect burst is <= 1. Port-less TURN entries are out of scope (server accepts, client rejects)."),
     "C07": dict(category="proof", design="DESIGN.md §4 C07",
                 technique="Lean 4 confinement theorems over an element-stack model of filepath.Clean/Join and the receiver's validators; regenerated dominance facts; filepath differential; hostile-sender runs with sandbox snapshot",
                 text="Within_join and its corollaries prove, for arbitrary byte strings, that every path expression the receiver builds from a validated manifest "
